@@ -4,11 +4,25 @@ TECHNIQUE = "CBMC bounded symbolic execution of http.c's routing functions on se
 UNITS = ["http.c", "evutil.c"]
 FUNCTIONS = ["evhttp_dispatch_callback", "prefix_suffix_match", "evhttp_find_alias", "evhttp_find_vhost", "evhttp_handle_request",
              "evhttp_request_get_host", "evhttp_set_cb", "evhttp_add_virtual_host", "evhttp_add_server_alias"]
-BOUNDS = "work in progress"
-OUT = "work in progress"
-TEXT = "work in progress"
-NOTE = ""
-ASSUMPTIONS = []
+BOUNDS = ("quick: patterns/aliases/registered paths <= 3 bytes, host names and request paths <= 4 bytes (thorough: 4 / 5), every byte symbolic (0x01-0xff, request "
+          "paths without '?' and '#'), so %2F, %00 and '*' are reachable; servers: root + <= 2 virtual hosts (sibling or nested), <= 1 alias per server, <= 2 callbacks; "
+          "request method any single bit 0..16, allowed set any 32-bit mask")
+OUT = ("the request flow before evhttp_handle_request (C23/C27); the error/404 page senders (cut and recorded); '?' and '[..]' of shell globbing (not implemented, only '*' "
+       "is claimed); more than two virtual-host levels; Host values whose name part itself ends in ':' digits; websocket upgrade paths; allocation failure")
+TEXT = ("match: prefix_suffix_match == reference wildcard matcher (iterative DP, '*' = any possibly empty run, optional ASCII case folding). vhost_*: on servers built with "
+        "evhttp_add_server_alias / evhttp_add_virtual_host, evhttp_find_vhost returns and selects what the reference selects: an alias (root first, then depth first, "
+        "case-insensitive) wins over patterns, otherwise the first matching pattern per level, descending while one matches, else the root with return value 0. dispatch: "
+        "evhttp_dispatch_callback returns the first callback registered (evhttp_set_cb; duplicates refused) whose path equals the percent-decoded request path as a byte "
+        "string, NULL otherwise, and frees its buffer. handle: a method outside allowed_methods gets exactly one 501 and nothing else; otherwise exactly one of: the "
+        "callback registered on the chosen host for the decoded path (with its argument and the request), that host's generic callback, 404; the host comes from the "
+        "request URI or the Host header with its port removed.")
+NOTE = ("FINDINGS (reproduced natively, fixed in /repo): (1) decoded %00 cut the path comparison short: '/admin%00x' reached the callback for '/admin' "
+        "(fixes/C30-dispatch-decoded-nul); (2) a '*' never absorbed the end of the name, so every vhost pattern ending in '*' matched nothing (fixes/C30-glob-star-empty). "
+        "match, dispatch and handle fail on the tree before those commits. In vhost_* and handle prefix_suffix_match is replaced by the reference matcher it is proved equal "
+        "to in `match` (the recursive matcher inside the vhost walk explodes under symex). '%2F' in a request path decodes to '/' and does match a registered path with a "
+        "slash: that is what the property statement (decoded path equality) demands. Trusted: cbmc, env/http_fmt.h, env/http_stralloc.h, ref/route_ref.h, ref/uricodec_ref.h.")
+ASSUMPTIONS = ["allocation does not fail", "callbacks do not modify the server", "bufferevent_disable has no effect on routing (cut)",
+               "in vhost_*/handle: prefix_suffix_match == ref glob (obligation match)"]
 DESIGN_REF = "DESIGN.md §5 C30"
 
 # function-pointer restriction first: the later passes remove the call-site labels
